@@ -27,6 +27,10 @@ type MemFS struct {
 	rng   *rt.Rand
 	mark  int
 
+	streamFault *Fault // Open hands out a stream that fails after At bytes
+	streamFired bool
+	directCall  bool // the oracle itself is asking: no faults
+
 	UniqueTags  bool // one tag per stored version
 	Conditional bool // evaluate If-Match / If-None-Match (with the public helpers)
 	tagSeq      int
@@ -141,6 +145,10 @@ func (m *MemFS) Open(ctx context.Context, name string) (io.ReadCloser, error) {
 		return nil, notFound(p)
 	}
 	// not an io.Seeker on purpose: exercises the handler's plain io.Copy branch
+	if f := m.streamFault; f != nil && !m.directCall {
+		m.streamFired = true
+		return &FaultBody{Data: n.data, Fault: &Fault{Seam: "backend-stream", At: f.At % (len(n.data) + 1), Kind: "custom-error"}}, nil
+	}
 	return io.NopCloser(bytes.NewReader(n.data)), nil
 }
 
@@ -356,6 +364,11 @@ func (ex *executor) memSnapshot() map[string]model.Entry {
 		s[p] = model.Entry{Dir: n.info.IsDir, Data: n.data}
 	}
 	return s
+}
+
+func (ex *executor) streamFaultFired() bool {
+	m := ex.mem()
+	return m != nil && m.streamFired
 }
 
 // memBegin marks the start of an API call in the backend's record.
